@@ -54,7 +54,7 @@ def register(P):
     reg(P, "C05", ["UtpVerif.Props.C05"], ["window", "slow_start"])
     reg(P, "C07", ["UtpVerif.Props.C07"], ["ack_timeliness"])
     reg(P, "C17", ["UtpVerif.Props.C17"], ["stream_content", "fin_sent", "reset"])
-    reg(P, "C01", ["UtpVerif.Props.C01"], ["stream_content"], ["segs", "txring", "rx"])
+    reg(P, "C01", ["UtpVerif.Props.C01", "UtpVerif.Props.C01E2E"], ["stream_content"], ["segs", "txring", "rx"])
     reg(P, "C02", ["UtpVerif.Props.C02"], ["calls_resolve", "ack_timeliness", "rtx_timer", "zero_window_probe"], ["txring", "rx"])
     reg(P, "C03", ["UtpVerif.Props.C03"], ["calls_resolve", "stream_content", "ack_honesty", "fin_sent"], ["txring", "rx"])
     reg(P, "C06", ["UtpVerif.Props.C06"], ["stream_content", "retx_cap"], ["segs"])
